@@ -5,6 +5,8 @@ import (
 	"sort"
 	"strings"
 
+	"github.com/go-openapi/strfmt"
+
 	"verif/harness/gen"
 	"verif/harness/lib"
 	"verif/harness/sut"
@@ -13,7 +15,7 @@ import (
 // C09 — spec defaults and examples are judged exactly as their schema judges them.
 type c09 struct {
 	base
-	session *sut.SpecSession
+	session, altSession *sut.SpecSession
 }
 
 func init() {
@@ -22,7 +24,7 @@ func init() {
 		technique: "runtime single-fault differential monitor: into a clean generated specification one default (or example) is planted at a chosen location, once with a value its own schema accepts and once with a value it rejects; the real SpecValidator runs on the base, the good and the bad twin and the monitor demands: bad default => error, bad example => additional warning, good value => no error and no additional warning",
 		rule: "locations: definitions, inline body-parameter and response schemas at depth 0-4 through properties / items / tuple items / additionalProperties / allOf members; simple parameters and response headers and their nested items; per-media-type response examples; member, parameter and definition names drawn from a pool which includes names equal to (the tail of) their ancestors; distinct = FNV-64 of the bad twin's text; non-trivial = distinct (location kind chain, depth, default-or-example) shapes are counted through tags; every case is non-trivial (it plants a fault)",
 		assumptions: []string{
-			"the planted leaf schema is {type: integer, maximum: 5}: 3 is accepted, 7 and \"x\" are rejected — simple enough that no recorded C01 finding interferes",
+			"the planted leaf schema is {type: integer, maximum: 5}: 3 is accepted, 7 and \"x\" are rejected — simple enough that no recorded C01 finding interferes; every fourth case plants {type: string, format: x-even} instead and validates with a caller-supplied registry which alone knows that format (\"ab\" accepted, \"abc\" rejected)",
 			"the generator is the oracle for where the value sits; no message text is parsed",
 			"sampled locations",
 		},
@@ -143,8 +145,21 @@ func anySkipped(paths []string) bool {
 	return false
 }
 
-func (p *c09) plant(r *lib.Rand, g *gen.SpecGen, doc map[string]any) *c09Plant {
-	leaf := map[string]any{"type": "integer", "maximum": gen.I(5)}
+// newLeaf is the planted leaf schema: {type: integer, maximum: 5}, or — for the cases which run with the
+// caller-supplied alternative registry — {type: string, format: x-even}, a format only that registry knows.
+func newLeaf(fmtLeaf bool) map[string]any {
+	if fmtLeaf {
+		return map[string]any{"type": "string", "format": "x-even"}
+	}
+	return map[string]any{"type": "integer", "maximum": gen.I(5)}
+}
+
+func (p *c09) plant(r *lib.Rand, g *gen.SpecGen, doc map[string]any, fmtLeaf bool) *c09Plant {
+	leaf := newLeaf(fmtLeaf)
+	var sibling any = gen.I(1)
+	if fmtLeaf {
+		sibling = "cd"
+	}
 	forExample := r.P(0.4)
 	key := "default"
 	if forExample {
@@ -213,7 +228,7 @@ func (p *c09) plant(r *lib.Rand, g *gen.SpecGen, doc map[string]any) *c09Plant {
 		// simple parameter, possibly through nested items
 		if forExample {
 			// examples are not allowed on simple parameters by the Swagger schema: use the response example instead
-			resp200["schema"] = map[string]any{"type": "object", "properties": map[string]any{"v": map[string]any{"type": "integer", "maximum": gen.I(5)}}}
+			resp200["schema"] = map[string]any{"type": "object", "properties": map[string]any{"v": newLeaf(fmtLeaf)}}
 			mk := func(v any) any { return map[string]any{"v": v} }
 			pl.kind = "example"
 			pl.where, pl.chain = "response 200 examples[application/json]", []string{"response-examples"}
@@ -222,7 +237,7 @@ func (p *c09) plant(r *lib.Rand, g *gen.SpecGen, doc map[string]any) *c09Plant {
 			return pl
 		}
 		d := r.Range(0, 3)
-		var node map[string]any = map[string]any{"type": "integer", "maximum": gen.I(5)}
+		var node map[string]any = newLeaf(fmtLeaf)
 		target := node
 		for i := 0; i < d; i++ {
 			node = map[string]any{"type": "array", "items": node}
@@ -246,13 +261,13 @@ func (p *c09) plant(r *lib.Rand, g *gen.SpecGen, doc map[string]any) *c09Plant {
 			// the default sits on the parameter itself: an array value nested d deep around the leaf value
 			top := node
 			pl.where, pl.chain = fmt.Sprintf("simple parameter, array default nested %d deep", d), []string{"simple-param", fmt.Sprintf("array-default*%d", d)}
-			pl.setValue = func(v any) { top["default"] = wrapArray(v, d) }
+			pl.setValue = func(v any) { top["default"] = wrapArray(v, d, sibling) }
 			pl.remove = func() { delete(top, "default") }
 		}
 	default:
 		// response header, possibly through nested items
 		if forExample {
-			resp200["schema"] = map[string]any{"type": "array", "items": map[string]any{"type": "integer", "maximum": gen.I(5)}}
+			resp200["schema"] = map[string]any{"type": "array", "items": newLeaf(fmtLeaf)}
 			pl.kind = "example"
 			pl.where, pl.chain = "response 200 examples[application/json] (array)", []string{"response-examples"}
 			pl.setValue = func(v any) { resp200["examples"] = map[string]any{"application/json": []any{v}} }
@@ -260,7 +275,7 @@ func (p *c09) plant(r *lib.Rand, g *gen.SpecGen, doc map[string]any) *c09Plant {
 			return pl
 		}
 		d := r.Range(0, 3)
-		var node map[string]any = map[string]any{"type": "integer", "maximum": gen.I(5)}
+		var node map[string]any = newLeaf(fmtLeaf)
 		target := node
 		for i := 0; i < d; i++ {
 			node = map[string]any{"type": "array", "items": node}
@@ -277,7 +292,7 @@ func (p *c09) plant(r *lib.Rand, g *gen.SpecGen, doc map[string]any) *c09Plant {
 		if d >= 1 && r.Bool() {
 			top := node
 			pl.where, pl.chain = fmt.Sprintf("response header, array default nested %d deep", d), []string{"header", fmt.Sprintf("array-default*%d", d)}
-			pl.setValue = func(v any) { top["default"] = wrapArray(v, d) }
+			pl.setValue = func(v any) { top["default"] = wrapArray(v, d, sibling) }
 			pl.remove = func() { delete(top, "default") }
 		}
 	}
@@ -312,22 +327,39 @@ func (p *c09) Run(w *lib.Worker, idx int, r *lib.Rand) lib.Case {
 	}
 	g := &gen.SpecGen{R: r, Tag: fmt.Sprintf("e%d", idx), NoRefs: idx%3 == 2}
 	doc := g.Clean()
-	pl := p.plant(r, g, doc)
+	// every fourth case: the planted schema carries a format which only a caller-supplied registry knows,
+	// and the specification is validated with that registry (NewSpecValidator(schema, formats))
+	fmtLeaf := idx%4 == 3
+	formats, session := strfmt.Registry(strfmt.Default), p.session
+	if fmtLeaf {
+		if p.altSession == nil {
+			p.altSession = sut.NewSpecSession()
+			p.altSession.Formats = altRegistry()
+		}
+		formats, session = altRegistry(), p.altSession
+	}
+	pl := p.plant(r, g, doc, fmtLeaf)
 	cfg := sut.SpecOpts{Continue: idx%2 == 0, Strict: true}
 	pl.remove()
 	baseText := gen.JSON(doc)
 	pl.setValue(gen.I(3))
+	if fmtLeaf {
+		pl.setValue("ab")
+	}
 	goodText := gen.JSON(doc)
 	bad := any(gen.I(7))
 	if r.Bool() {
 		bad = "x"
 	}
+	if fmtLeaf {
+		bad = "abc"
+	}
 	pl.setValue(bad)
 	badText := gen.JSON(doc)
 
 	c := lib.Case{Hash: lib.Hash64(badText), Nontrivial: true, Evals: 3}
-	c.Tags = []string{"plant:" + pl.kind, "chain:" + strings.Join(pl.chain, ">"), fmt.Sprintf("continue:%v", cfg.Continue), boolTag("suffix-skipped", pl.skipped)}
-	base, good, badO := sut.ValidateSpec(baseText, cfg), sut.ValidateSpec(goodText, cfg), sut.ValidateSpec(badText, cfg)
+	c.Tags = []string{"plant:" + pl.kind, "chain:" + strings.Join(pl.chain, ">"), fmt.Sprintf("continue:%v", cfg.Continue), boolTag("suffix-skipped", pl.skipped), boolTag("format-leaf-under-alternative-registry", fmtLeaf)}
+	base, good, badO := sut.ValidateSpecWith(baseText, cfg, formats), sut.ValidateSpecWith(goodText, cfg, formats), sut.ValidateSpecWith(badText, cfg, formats)
 	sample := map[string]any{"where": pl.where, "kind": pl.kind, "chain": pl.chain, "bad_value": bad, "document_with_bad_value": string(badText), "config": fmt.Sprintf("%+v", cfg)}
 	if idx%100 == 0 {
 		c.Sample = sample
@@ -359,7 +391,7 @@ func (p *c09) Run(w *lib.Worker, idx int, r *lib.Rand) lib.Case {
 		return c
 	}
 	// the same judgement from a validator object which has validated other documents before
-	if reused := p.session.Validate(badText, cfg); reused.Panic != "" || reused.Key() != badO.Key() {
+	if reused := session.Validate(badText, cfg); reused.Panic != "" || reused.Key() != badO.Key() {
 		c.Evals++
 		if !pl.skipped {
 			sample["reused_validator_outcome"] = reused
@@ -406,8 +438,8 @@ func (p *c09) Finish(a *lib.Aggregate) (broken []string) {
 }
 
 // wrapArray nests a value d levels deep in one-element arrays (with a valid sibling at the innermost level).
-func wrapArray(v any, d int) any {
-	var out any = []any{gen.I(1), v}
+func wrapArray(v any, d int, sibling any) any {
+	var out any = []any{sibling, v}
 	for i := 1; i < d; i++ {
 		out = []any{out}
 	}
